@@ -16,9 +16,11 @@
 package c15
 
 import (
+	"bytes"
 	"context"
 	"errors"
 	"fmt"
+	"reflect"
 	"strings"
 	"sync"
 	"sync/atomic"
@@ -52,6 +54,11 @@ func init() {
 			"foreign-original (cqrs.CtxWithOriginalMessage of ANOTHER message: a different message of the case, another copy with the same UUID, or the previously delivered copy); " +
 			"handler-ctx (the very context the previous handler invocation on that subscription received, i.e. publish-from-handler over a context-preserving transport); " +
 			"bus-ctx (the context of the message as the real bus published it when Send/Publish was called with a context holding an outer message's original message). " +
+			"Handlers own the value they receive: every invocation records a DEEP SNAPSHOT of its value at handler entry (the oracle judges snapshots only) and then, per handler, " +
+			"leaves it alone or mutates it (scalar fields / slice and map elements and nested pointees in place / append-insert-delete-allocate / overwrite with another random value / zero / all of it) " +
+			"and/or retains the pointer; retained pointers of a subscription are written through at its next boundaries (OnHandle entry, handler entry before the snapshot), i.e. after the retaining " +
+			"invocation returned; OnHandle hooks do the same to params.Event after the wrapped handler returned. Groups draw their handlers from 3 types (several handlers of one type are the norm) and " +
+			"may list the very same handler object twice; a Nacked copy is redelivered, so the same handler meets the same message again after having changed its previous value. " +
 			"The oracle is a reference dispatch function of (registry, flags, message, failure script) that fixes per delivered copy the ordered handler invocations, their values " +
 			"(independent decode with encoding/json / protobuf) and Ack vs Nack. A case is non-trivial when it saw at least one handler invocation, one delivery whose name matched " +
 			"no handler and one Nack; distinct = distinct (configuration, registry shape, per-delivery outcome) hashes.",
@@ -62,6 +69,7 @@ func init() {
 			"malformed is decided by the reference codec: decode error => expect Nack and no invocation; decodable garbage => expect an invocation with the decoded value",
 			"never-settled / never-returning is decided by the quiescence detector, not by a time-out",
 			"\"the handler's context exposes the original message\" = cqrs.OriginalMessageFromCtx(ctx) is the *message.Message being handled (pointer identity), whatever values the incoming message's context already carried; nothing is demanded about the other values of the context",
+			"a handler (and an OnHandle hook, once the wrapped handler returned) may change and keep the value it was handed - it is a pointer to a value decoded for that invocation; \"a value equal to the one sent\" is judged on a deep copy taken at handler entry, so each invocation (next handler of the group, same handler on the redelivered copy, next message) must see the sent value whatever earlier invocations did to theirs. A write through a retained pointer is performed at the next handler/hook entry of the same subscription: for correct code it cannot alias the value of the new invocation",
 			"the family label of a malformed payload is bookkeeping only (counters malformed_<family> / decodable_<family>); the expected outcome always comes from the reference decode of the delivered bytes",
 		},
 		Run: run,
@@ -172,6 +180,8 @@ type hdef struct {
 	Name    string // expected type name under the case's generator
 	HName   string
 	Generic bool
+	Mut     string // what the handler does to the value it received, after the entry snapshot: none | scalar | inplace | grow | replace | zero | all
+	Retain  bool   // the handler keeps the pointer; the harness mutates it at the following boundaries of the subscription
 	sub     *subDef
 }
 
@@ -213,6 +223,69 @@ type subDef struct {
 	unsolicited []inv
 	aborted     bool
 	onHandle    int
+
+	// handlers that own their value (mutate.go); all guarded by mu
+	HookMut    string         // what the OnHandle hook does to params.Event after the wrapped handler returned
+	HookRetain bool           // the hook keeps params.Event (after the wrapped handler returned)
+	hr         *vlib.Rand     // PRNG of the handler side (handlers of one subscription run one at a time)
+	retained   []retainedV    // pointers kept by earlier invocations (bounded)
+	copySeq    int            // number of the copy being delivered
+	curMut     map[*tdef]bool // types whose value an invocation of the current copy changed
+	mutSeen    map[string]int // "uuid|type" -> copySeq of the first effective mutation
+	ms         mutStats
+}
+
+type retainedV struct {
+	v any
+	t *tdef
+}
+
+type mutStats struct {
+	snapshots, mutEff, mutNoop, retainedN, retainedMut, retainedEff, hookMut, afterGroupMut, afterRedelivMut int
+}
+
+const maxRetained = 5
+
+// touchRetained performs the "later" mutations through the pointers earlier invocations kept. Called with mu held at
+// every boundary of the subscription (OnHandle entry, handler entry before the snapshot).
+func (s *subDef) touchRetained() {
+	for _, rv := range s.retained {
+		s.ms.retainedMut++
+		if mutate(s.hr, rv.v, rv.t, "all") {
+			s.ms.retainedEff++
+		}
+	}
+}
+
+func (s *subDef) retain(v any, t *tdef) {
+	for _, rv := range s.retained {
+		if rv.v == v {
+			return
+		}
+	}
+	s.ms.retainedN++
+	s.retained = append(s.retained, retainedV{v, t})
+	if len(s.retained) > maxRetained {
+		s.retained = s.retained[1:]
+	}
+}
+
+// noteMutation records that the value of type t handed out for the current copy was changed by its receiver.
+func (s *subDef) noteMutation(t *tdef) {
+	if s.cur == nil {
+		return
+	}
+	if s.curMut == nil {
+		s.curMut = map[*tdef]bool{}
+	}
+	s.curMut[t] = true
+	if s.mutSeen == nil {
+		s.mutSeen = map[string]int{}
+	}
+	k := s.cur.UUID + "|" + t.key
+	if _, ok := s.mutSeen[k]; !ok {
+		s.mutSeen[k] = s.copySeq
+	}
 }
 
 type caseState struct {
@@ -289,7 +362,11 @@ func plan(e *vlib.Env) *caseState {
 
 	// registry ---------------------------------------------------------------------------------
 	addH := func(s *subDef, t *tdef, hname string) {
-		h := &hdef{Idx: len(cs.hs), T: t, Name: c.name(t), HName: hname, Generic: r.Bool(), sub: s}
+		h := &hdef{Idx: len(cs.hs), T: t, Name: c.name(t), HName: hname, Generic: r.Bool(), sub: s, Mut: "none"}
+		if r.Chance(0.55) {
+			h.Mut = mutModes[r.Intn(len(mutModes))]
+		}
+		h.Retain = r.Chance(0.3)
 		cs.hs = append(cs.hs, h)
 		s.H = append(s.H, h)
 	}
@@ -324,9 +401,22 @@ func plan(e *vlib.Env) *caseState {
 		s := &subDef{Kind: "grp", Key: key, calls: map[string]int{}}
 		pool := []*tdef{fam[r.Intn(len(fam))], fam[r.Intn(len(fam))], fam[r.Intn(len(fam))]}
 		for j, m := 0, r.Range(1, 5); j < m; j++ {
+			if j > 0 && r.Chance(0.15) {
+				// the very same handler object registered once more in the group
+				s.H = append(s.H, s.H[r.Intn(len(s.H))])
+				continue
+			}
 			addH(s, pool[r.Intn(len(pool))], "")
 		}
 		cs.subs = append(cs.subs, s)
+	}
+
+	for _, s := range cs.subs {
+		s.HookMut = "none"
+		if r.Chance(0.5) {
+			s.HookMut = mutModes[r.Intn(len(mutModes))]
+		}
+		s.HookRetain = r.Chance(0.3)
 	}
 
 	// stream ------------------------------------------------------------------------------------
@@ -599,7 +689,11 @@ func (cs *caseState) handlerFn(h *hdef) hfn {
 		s := h.sub
 		s.mu.Lock()
 		defer s.mu.Unlock()
-		in := inv{H: h.Idx, V: v}
+		// pointers kept by earlier invocations are written through now ("later" for them, "before" for this one) ...
+		s.touchRetained()
+		// ... and what this invocation received is recorded as a deep snapshot before the handler body touches it
+		in := inv{H: h.Idx, V: clone(v)}
+		s.ms.snapshots++
 		s.lastCtx = ctx
 		om := cqrs.OriginalMessageFromCtx(ctx)
 		in.OrigNil = om == nil
@@ -613,6 +707,24 @@ func (cs *caseState) handlerFn(h *hdef) hfn {
 		s.calls[k] = n + 1
 		in.Fail = n < cs.failN[k]
 		s.curInvs = append(s.curInvs, in)
+		if s.curMut[h.T] {
+			s.ms.afterGroupMut++
+		}
+		if seq, ok := s.mutSeen[s.cur.UUID+"|"+h.T.key]; ok && seq < s.copySeq {
+			s.ms.afterRedelivMut++
+		}
+		// the handler body: the value is the handler's own
+		if h.Mut != "none" {
+			if mutate(s.hr, v, h.T, h.Mut) {
+				s.ms.mutEff++
+				s.noteMutation(h.T)
+			} else {
+				s.ms.mutNoop++
+			}
+		}
+		if h.Retain {
+			s.retain(v, h.T)
+		}
 		if in.Fail {
 			return errScripted
 		}
@@ -664,12 +776,37 @@ func (cs *caseState) build(router *message.Router) error {
 			}
 		}
 	}
-	bump := func(key string) {
-		if s := cs.subByKey(key); s != nil {
-			s.mu.Lock()
-			s.onHandle++
-			s.mu.Unlock()
+	// around is the OnHandle hook of all three processors: the documented pass-through, which - like a handler - may
+	// change or keep the value AFTER the wrapped handler returned (never before: what the handler sees is watermill's doing).
+	around := func(key string, ev any, call func() error) error {
+		s := cs.subByKey(key)
+		if s == nil {
+			return call()
 		}
+		s.mu.Lock()
+		s.onHandle++
+		s.touchRetained()
+		s.mu.Unlock()
+		err := call()
+		s.mu.Lock()
+		defer s.mu.Unlock()
+		var t *tdef
+		if rt := reflect.TypeOf(ev); rt != nil && rt.Kind() == reflect.Ptr {
+			t = allTypes[rt.Elem()]
+		}
+		if t == nil {
+			return err
+		}
+		if s.HookMut != "none" {
+			s.ms.hookMut++
+			if mutate(s.hr, ev, t, s.HookMut) {
+				s.noteMutation(t)
+			}
+		}
+		if s.HookRetain {
+			s.retain(ev, t)
+		}
+		return err
 	}
 
 	// command processor
@@ -697,8 +834,7 @@ func (cs *caseState) build(router *message.Router) error {
 		}
 		if c.OnHandleCmd {
 			conf.OnHandle = func(p cqrs.CommandProcessorOnHandleParams) error {
-				bump(p.Handler.HandlerName())
-				return p.Handler.Handle(p.Message.Context(), p.Command)
+				return around(p.Handler.HandlerName(), p.Command, func() error { return p.Handler.Handle(p.Message.Context(), p.Command) })
 			}
 		}
 		cp, err := cqrs.NewCommandProcessorWithConfig(router, conf)
@@ -741,8 +877,7 @@ func (cs *caseState) build(router *message.Router) error {
 		}
 		if c.OnHandleEvt {
 			conf.OnHandle = func(p cqrs.EventProcessorOnHandleParams) error {
-				bump(p.Handler.HandlerName())
-				return p.Handler.Handle(p.Message.Context(), p.Event)
+				return around(p.Handler.HandlerName(), p.Event, func() error { return p.Handler.Handle(p.Message.Context(), p.Event) })
 			}
 		}
 		ep, err := cqrs.NewEventProcessorWithConfig(router, conf)
@@ -773,8 +908,7 @@ func (cs *caseState) build(router *message.Router) error {
 	}
 	if c.OnHandleGrp {
 		gconf.OnHandle = func(p cqrs.EventGroupProcessorOnHandleParams) error {
-			bump(p.GroupName)
-			return p.Handler.Handle(p.Message.Context(), p.Event)
+			return around(p.GroupName, p.Event, func() error { return p.Handler.Handle(p.Message.Context(), p.Event) })
 		}
 	}
 	gp, err := cqrs.NewEventGroupProcessorWithConfig(router, gconf)
@@ -786,12 +920,18 @@ func (cs *caseState) build(router *message.Router) error {
 			continue
 		}
 		var hs []cqrs.GroupEventHandler
+		objs := map[*hdef]cqrs.GroupEventHandler{} // an hdef listed twice is ONE handler object registered twice
 		for _, h := range s.H {
-			if h.Generic {
-				hs = append(hs, h.T.fac.grp(cs.handlerFn(h)))
-			} else {
-				hs = append(hs, &reflHandler{rt: h.T.rt, f: cs.handlerFn(h)})
+			if o, ok := objs[h]; ok {
+				hs = append(hs, o)
+				continue
 			}
+			if h.Generic {
+				objs[h] = h.T.fac.grp(cs.handlerFn(h))
+			} else {
+				objs[h] = &reflHandler{rt: h.T.rt, f: cs.handlerFn(h)}
+			}
+			hs = append(hs, objs[h])
 		}
 		if err := gp.AddHandlersGroup(s.Key, hs...); err != nil {
 			return err
@@ -871,6 +1011,8 @@ func (s *subDef) drive(sp *vlib.Subscription) {
 			prev = cp
 			s.mu.Lock()
 			s.cur, s.curInvs = cp, nil
+			s.copySeq++
+			s.curMut = nil
 			s.mu.Unlock()
 			if !sp.Send(cp) {
 				s.mu.Lock()
@@ -1067,11 +1209,11 @@ func (cs *caseState) judge(s *subDef, res *vlib.Result, st *stats) []outcome {
 			}
 			for i, in := range o.Invs {
 				if !equal(in.V, x.invs[i].v) {
-					res.Fail("value", "%s: handler h%d received %s, the message carries %s", where, in.H, show(in.V), show(x.invs[i].v))
+					res.Fail("value", "%s: handler h%d (invocation %d of %v of this copy) received %s, the message carries %s [snapshot taken at handler entry; what the handlers / the hook do to their own values: %s]", where, in.H, i+1, obsSeq, show(in.V), show(x.invs[i].v), cs.behaviours(s))
 					return out
 				}
 				if d.M.Kind == "typed" && cs.hs[in.H].T == d.M.T && !equal(in.V, d.M.sent) {
-					res.Fail("value", "%s: handler h%d received %s, the value sent was %s", where, in.H, show(in.V), show(d.M.sent))
+					res.Fail("value", "%s: handler h%d (invocation %d of %v of this copy) received %s, the value sent was %s [snapshot taken at handler entry; behaviours: %s]", where, in.H, i+1, obsSeq, show(in.V), show(d.M.sent), cs.behaviours(s))
 					return out
 				}
 				if !in.OrigOK {
@@ -1144,6 +1286,27 @@ func (cs *caseState) judge(s *subDef, res *vlib.Result, st *stats) []outcome {
 		res.Fail("invoked-unsolicited", "%s processor %s: handler h%d was invoked with %s while no delivery was in flight", s.Kind, s.Key, in.H, show(in.V))
 	}
 	return out
+}
+
+// behaviours lists what the handlers (and the hook) of s do to the values they receive.
+func (cs *caseState) behaviours(s *subDef) string {
+	var o []string
+	for _, h := range s.H {
+		b := h.Mut
+		if h.Retain {
+			b += "+keep"
+		}
+		o = append(o, fmt.Sprintf("h%d:%s", h.Idx, b))
+	}
+	hooked := (s.Kind == "cmd" && cs.c.OnHandleCmd && !cs.c.LegacyCmdProc) || (s.Kind == "evt" && cs.c.OnHandleEvt && !cs.c.LegacyEvtProc) || (s.Kind == "grp" && cs.c.OnHandleGrp)
+	if hooked {
+		b := "OnHandle(after Handle):" + s.HookMut
+		if s.HookRetain {
+			b += "+keep"
+		}
+		o = append(o, b)
+	}
+	return strings.Join(o, " ")
 }
 
 func (cs *caseState) matching(s *subDef, m *smsg) int {
@@ -1219,11 +1382,14 @@ func run(e *vlib.Env) vlib.Result {
 	}
 
 	var pool []*message.Message
+	var payloads [][]byte // rule 8: nothing on the harness side (mutating handlers included) may write into payload bytes
 	for _, m := range cs.msgs {
 		pool = append(pool, m.orig)
+		payloads = append(payloads, append([]byte(nil), m.orig.Payload...))
 	}
 	for _, s := range cs.subs {
 		s.r, s.pool = e.R.Fork(), pool
+		s.hr = e.R.Fork()
 	}
 	var wg sync.WaitGroup
 	for _, s := range cs.subs {
@@ -1242,6 +1408,15 @@ func run(e *vlib.Env) vlib.Result {
 
 	st := stats{by: map[string]int{}}
 	var outs []outcome
+	if oc == vlib.Done {
+		for i, m := range cs.msgs {
+			if !bytes.Equal(payloads[i], m.orig.Payload) {
+				res.Verdict, res.Reason = vlib.HarnessError, fmt.Sprintf("payload bytes of message #%d changed during the run (a decoded value aliases the payload and a handler wrote into it?)", m.No)
+				shutdown()
+				return res
+			}
+		}
+	}
 	for _, s := range cs.subs {
 		outs = append(outs, cs.judge(s, &res, &st)...)
 		if res.Verdict != "" {
@@ -1273,11 +1448,53 @@ func run(e *vlib.Env) vlib.Result {
 	}
 
 	onHandle := 0
+	var ms mutStats
+	sameObj, multiSame := 0, 0
 	for _, s := range cs.subs {
 		s.mu.Lock()
 		onHandle += s.onHandle
+		ms.snapshots += s.ms.snapshots
+		ms.mutEff += s.ms.mutEff
+		ms.mutNoop += s.ms.mutNoop
+		ms.retainedN += s.ms.retainedN
+		ms.retainedMut += s.ms.retainedMut
+		ms.retainedEff += s.ms.retainedEff
+		ms.hookMut += s.ms.hookMut
+		ms.afterGroupMut += s.ms.afterGroupMut
+		ms.afterRedelivMut += s.ms.afterRedelivMut
 		s.mu.Unlock()
+		if s.Kind == "grp" {
+			seenH, seenT := map[*hdef]bool{}, map[string]int{}
+			dupObj := false
+			for _, h := range s.H {
+				if seenH[h] {
+					dupObj = true
+				}
+				seenH[h] = true
+				seenT[h.Name]++
+			}
+			if dupObj {
+				sameObj++
+			}
+			for _, n := range seenT {
+				if n > 1 {
+					multiSame++
+					break
+				}
+			}
+		}
 	}
+	res.Count("value_snapshots_at_handler_entry", ms.snapshots)
+	res.Count("handler_mutations_effective", ms.mutEff)
+	res.Count("handler_mutations_noop", ms.mutNoop)
+	res.Count("hook_mutations_after_handle", ms.hookMut)
+	res.Count("values_retained", ms.retainedN)
+	res.Count("retained_mutations", ms.retainedMut)
+	res.Count("retained_mutations_effective", ms.retainedEff)
+	res.Count("invocations_after_same_type_value_mutated_in_same_copy", ms.afterGroupMut)
+	res.Count("invocations_after_value_mutated_in_earlier_copy", ms.afterRedelivMut)
+	res.Count("groups_with_several_handlers_of_one_type", multiSame)
+	res.Count("groups_with_same_handler_object_twice", sameObj)
 	res.Count("copies", st.copies)
 	res.Count("invocations", st.invocations)
 	res.Count("acks", st.acks)
@@ -1322,9 +1539,22 @@ func (cs *caseState) registry() []string {
 			if h.Generic {
 				g = "g"
 			}
+			if h.Mut != "none" {
+				g += "/" + h.Mut
+			}
+			if h.Retain {
+				g += "/keep"
+			}
 			hs = append(hs, fmt.Sprintf("h%d:%s/%s", h.Idx, h.T.key, g))
 		}
-		o = append(o, s.Kind+strings.TrimPrefix(s.Key, cs.e.ID())+"["+strings.Join(hs, ",")+"]")
+		hook := ""
+		if s.HookMut != "none" {
+			hook = " hook:" + s.HookMut
+		}
+		if s.HookRetain {
+			hook += " hook:keep"
+		}
+		o = append(o, s.Kind+strings.TrimPrefix(s.Key, cs.e.ID())+"["+strings.Join(hs, ",")+"]"+hook)
 	}
 	return o
 }
